@@ -159,7 +159,22 @@ def ex_cache(repo):
     pragmas = re.findall(r'pragma_update\(None, ' + STR + r', ' + STR + r'\)', src)
     tx_fns = [fm.group(1) for fm in re.finditer(r"\n    (?:pub )?fn (\w+)(?:<[^>]*>)?\((.*?)\n    \}\n", src, re.S)
               if "conn.transaction()" in fm.group(2) and "tx.commit()" in fm.group(2)]
-    return {"migrations": migs, "sqlStatements": stmts,
+    mig_cols = []
+    for g in migs:
+        cols = []
+        for sql in g:
+            mm = re.fullmatch(r"ALTER TABLE packages ADD COLUMN (\w+) .*", sql)
+            if not mm:
+                raise ValueError("migration statement shape: " + sql)
+            cols.append(mm.group(1))
+        mig_cols.append(cols)
+    # the tolerated error of apply_migrations
+    am = re.search(r"fn apply_migrations\(.*?\n    \}\n", src, re.S).group(0)
+    tol = re.findall(r'msg\.contains\(' + STR + r'\)', am)
+    guard = re.search(r"Err\(rusqlite::Error::SqliteFailure\(_, Some\(ref msg\)\)\)\s*if (.*?) =>", am, re.S)
+    guard_txt = " ".join(guard.group(1).split()) if guard else ""
+    return {"migrations": migs, "migrationColumns": mig_cols, "migrationTolerated": [rust_str(t) for t in tol],
+            "migrationToleranceGuard": guard_txt, "sqlStatements": stmts,
             "pragmas": [[rust_str(a), rust_str(b)] for a, b in pragmas],
             "transactionalFns": tx_fns}
 
@@ -197,6 +212,9 @@ def render(vals):
     L.append(f"def fetchStaggerDelayMs : Nat := {vals['fetchStaggerDelayMs']}")
     L.append(f"def knownDistTags : List String := {lean_list(vals['knownDistTags'])}")
     L.append("def migrations : List (List String) := [" + ", ".join(lean_list(g) for g in vals["migrations"]) + "]")
+    L.append("def migrationColumns : List (List String) := [" + ", ".join(lean_list(g) for g in vals["migrationColumns"]) + "]")
+    L.append(f"def migrationTolerated : List String := {lean_list(vals['migrationTolerated'])}")
+    L.append(f"def migrationToleranceGuard : String := {lean_str(vals['migrationToleranceGuard'])}")
     L.append(f"def sqlStatements : List (String × String) := {pairs(vals['sqlStatements'])}")
     L.append(f"def pragmas : List (String × String) := {pairs(vals['pragmas'])}")
     L.append(f"def transactionalFns : List String := {lean_list(vals['transactionalFns'])}")
